@@ -29,14 +29,15 @@ def preprocess(repo, relpath, timeout=120):
     files = {}
     cur = None
     root = os.path.realpath(repo)
+    inrepo = {}
     for line in p.stdout.split("\n"):
-        m = re.match(r'#\s+(\d+)\s+"([^"]*)"', line)
-        if m:
-            fn = m.group(2)
-            rp = os.path.realpath(fn) if not fn.startswith("<") else fn
-            cur = os.path.basename(fn) if rp.startswith(root) else None
-            continue
         if line.startswith("#"):
+            m = re.match(r'#\s+(\d+)\s+"([^"]*)"', line)
+            if m:
+                fn = m.group(2)
+                if fn not in inrepo:
+                    inrepo[fn] = (not fn.startswith("<")) and os.path.realpath(fn).startswith(root)
+                cur = os.path.basename(fn) if inrepo[fn] else None
             continue
         if cur is not None:
             files.setdefault(cur, []).append(line)
